@@ -21,6 +21,7 @@ def run(model, rep, tier):
     from . import c07
     c07.r1_r2_wire(ctx, rep, R1='C12.R5', R2='C12.R5')
     r6_labels(ctx, rep)
+    r7_entry_shapes(ctx, rep)
     rep.units['cfg'] = ctx.cfg_stats
 
 
@@ -297,3 +298,65 @@ def _token_sequence(fi):
                     seq.append(('other', norm(e)))
             return seq
     return None
+
+
+# element shapes of the lists of unittest.TestResult (cross-checked against the stdlib source in
+# the thorough tier): pairs (test, text) or bare test objects
+RESULT_LIST_SHAPE = {'failures': 'pair', 'errors': 'pair', 'skipped': 'pair',
+                     'expectedFailures': 'pair', 'unexpectedSuccesses': 'bare'}
+
+
+def _shape(e, loopshapes=None):
+    """shape of the elements an expression contributes: 'pair' / 'bare' / None (unknown)"""
+    loopshapes = loopshapes or {}
+    if isinstance(e, ast.Attribute) and e.attr in RESULT_LIST_SHAPE:
+        return RESULT_LIST_SHAPE[e.attr]
+    if isinstance(e, (ast.GeneratorExp, ast.ListComp)) and len(e.generators) == 1:
+        g = e.generators[0]
+        src = _shape(g.iter, loopshapes)
+        if isinstance(e.elt, ast.Tuple):
+            return 'pair' if len(e.elt.elts) == 2 else 'other'
+        if isinstance(e.elt, ast.Name) and isinstance(g.target, ast.Name) and e.elt.id == g.target.id:
+            return src
+        return None
+    if isinstance(e, (ast.List, ast.Tuple)) and e.elts:
+        shapes = {('pair' if isinstance(x, ast.Tuple) and len(x.elts) == 2 else None) for x in e.elts}
+        return shapes.pop() if len(shapes) == 1 else None
+    return None
+
+
+def r7_entry_shapes(ctx, rep, R='C12.R7'):
+    rep.rule(R, 'entry shapes agree: every entry added to an accumulator that the listing / the '
+             'subprocess report unpacks as a (test, info) pair is such a pair -- unittest keeps bare '
+             'test objects in unexpectedSuccesses, pairs in failures / errors / skipped')
+    m = ctx.model
+    # readers that unpack pairs
+    pair_readers = set()
+    for fi in m.all_functions():
+        for n in ast.walk(fi.node):
+            if isinstance(n, ast.For) and isinstance(n.target, ast.Tuple) and len(n.target.elts) == 2:
+                d = (dotted(n.iter) or '').split('.')[-1]
+                if d in ('failures', 'errors', 'skipped'):
+                    pair_readers.add(d)
+    n_sites = 0
+    for q in ('runner.run_tests', 'runner.spawn_layer_in_subprocess', 'runner.handle_layer_failure',
+              'filter.Filter.global_setup'):
+        fi = m.func(q)
+        for c in own_calls(fi.node):
+            if not (isinstance(c.func, ast.Attribute) and c.func.attr in ('append', 'extend') and c.args):
+                continue
+            acc = (dotted(c.func.value) or '').split('.')[-1]
+            if acc not in pair_readers:
+                continue
+            n_sites += 1
+            if c.func.attr == 'append':
+                sh = 'pair' if isinstance(c.args[0], ast.Tuple) and len(c.args[0].elts) == 2 else None
+            else:
+                sh = _shape(c.args[0])
+            rep.check(sh == 'pair', R, '%s: %s' % (q, norm(c)[:70]),
+                      'entries of shape %r are added to %r, which is read by unpacking (test, info) '
+                      'pairs (Tests with failures/errors listing, subprocess report): the report '
+                      'phase would raise TypeError' % (sh or 'unknown', acc),
+                      key='shape:%s:%s' % (q, norm(c)[:70]), func=fi.qualname, where=ctx.where(fi, c))
+    rep.floor(R, n_sites, 6, 'accumulator writes')
+    rep.floor(R, len(pair_readers), 2, 'accumulators read by pair unpacking')
